@@ -65,7 +65,8 @@ func VerifH_server_prefix() {
 		opts = append(opts, MuxHandleOption("/"))
 		prefixes = []string{""}
 	}
-	opts = append(opts, HTTPHandlerOption("/static/", marker))
+	marker2 := &vfMarkerHandler{}
+	opts = append(opts, HTTPHandlerOption("/static/", marker), HTTPHandlerOption("/assets/", marker2))
 	hs, err := NewServer(mounted, opts...)
 	if err != nil {
 		vfFail("NewServer failed: " + err.Error())
@@ -152,4 +153,9 @@ func VerifH_server_prefix() {
 	r4.Method = "GET"
 	hs.Handler.ServeHTTP(w4, r4)
 	vfCheck(len(marker.hits) == 1 && marker.hits[0] == "/static/file" && w4.status == 299, "a handler added with HTTPHandlerOption does not receive its own pattern")
+	w5 := newFakeRW()
+	r5 := mk("/assets/a.css")
+	r5.Method = "GET"
+	hs.Handler.ServeHTTP(w5, r5)
+	vfCheck(len(marker2.hits) == 1 && marker2.hits[0] == "/assets/a.css" && w5.status == 299 && len(marker.hits) == 1, "with several HTTPHandlerOption handlers one of them does not receive its own pattern")
 }
